@@ -35,3 +35,4 @@ MUTANTS.append(dict(name='rendered-method-cached-by-operation-id', file='visit/e
 MUTANTS.append(dict(name='method-name-keeps-unicode-word-chars', file='core/utils.py', expect='R7.11', old='        name = re.sub(r"[^0-9a-zA-Z_]", "_", name)\n', new='        name = re.sub(r"[^\\w]", "_", name)\n'))
 MUTANTS.append(dict(name='paths-without-leading-slash-filtered', file='core/loader/loader.py', expect='R7.12', old='        self.paths = spec["paths"]\n', new='        # The Paths Object may carry specification extensions (`x-...`) next to the path templates;\n        # only the templates ("/...") describe operations\n        self.paths = spec["paths"]\n        if isinstance(self.paths, Mapping):\n            self.paths = {p: item for p, item in self.paths.items() if isinstance(p, str) and p.startswith("/")}\n'))
 MUTANTS.append(dict(name='method-blocks-deduplicated-by-first-line', file='visit/endpoint/endpoint_visitor.py', expect='R7.13', old='        # Write methods\n', new='        # Write methods. An operation that lists two spellings of one tag ("Pets", "pets") is grouped twice and\n        # arrives here twice: keep one block per method header (method names are unique within a client)\n        method_codes = list({code.split("\\n", 1)[0]: code for code in method_codes}.values())\n'))
+MUTANTS.append(dict(name='client-member-name-no-longer-reserved', file='core/utils.py', expect='R7.14', old='        "request",\n        "close",\n', new='        "close",\n'))
